@@ -1,8 +1,28 @@
 #!/bin/bash
-# Offline setup: build the overlay generator and warm the build cache.
+# Offline setup: build the overlay generator, generate what is generated, and
+# warm the Go build cache (plain and -race) so that the first check is not slow.
 set -eu
 cd "$(dirname "$0")"
 export GOFLAGS=-mod=mod GOPROXY=off GOSUMDB=off GOTOOLCHAIN=local
 mkdir -p bin evidence replays
 go build -o bin/mkoverlay ./cmd/mkoverlay
+
+# generated Windows reference for C13 (from the installed toolchain's sources)
+if [ -x ref/gen_winpath.sh ]; then ./ref/gen_winpath.sh; fi
+
+REPO=$(readlink -f "${VERIF_REPO:-/repo}")
+BASE=/dev/shm; [ -d "$BASE" ] && [ -w "$BASE" ] || BASE=${TMPDIR:-/tmp}
+SCR=$(mktemp -d "$BASE/avfs-verif-setup.XXXXXX")
+trap 'rm -rf "$SCR"' EXIT
+( cd "$REPO" && "$OLDPWD/bin/mkoverlay" "$REPO" "$OLDPWD" "$SCR" ) 2>/dev/null
+sed "s#=> /repo#=> $REPO#" go.mod > "$SCR/go.mod"; [ -f go.sum ] && cp go.sum "$SCR/go.sum"
+for d in cmd/c*/; do
+  n=$(basename "$d")
+  case "$n" in
+    c13|c17) tags=verif,avfs_setostype ;;
+    *) tags=verif ;;
+  esac
+  race=; [ "$n" = c08 ] && race=-race
+  go build -modfile="$SCR/go.mod" -overlay="$SCR/overlay.json" -tags "$tags" $race -o "$SCR/$n" "./$d" || echo "setup: warm-up build of $n failed (the check will report it)" >&2
+done
 echo "setup done"
